@@ -220,13 +220,21 @@ class Selection:
             if any(l is None for l in lists):
                 return
             for j, combo in enumerate(itertools.product(*lists)):
-                if j > 0 and n.get("consume") == "first":
-                    break  # a Map is lazy: elements its consumer never asks for are never evaluated
                 o2 = self.o
                 for key, x in combo:
                     top = {}
                     U.set_path(top, key, x)
                     o2 = U.overlay(o2, top)
+                if j > 0 and n.get("consume") == "first":
+                    # a Map is lazy: elements its consumer never asks for are never EVALUATED.  Their keys() are still wanted by
+                    # whatever caches the Map, and keys() evaluates what stands in selector positions (a dispatch that is a
+                    # dataset): exactly what a fresh twin runs for target.keys(o2) is allowed, nothing else of the element
+                    kt = self.t.twin(record=False)
+                    kt.raw(n["target"], o2, "keys")
+                    for (kind, name), c in kt.counts.items():
+                        if c and kind in ("body", "factory"):
+                            self.allowed.add((kind, name))
+                    continue
                 self.walk(n["target"], o2)
         else:  # node kinds outside the model
             self.allow_all(nid)
